@@ -4839,7 +4839,9 @@ namespace awkward {
     else {
       const std::vector<ssize_t> shape(std::next(shape_.begin()), shape_.end());
       const std::vector<ssize_t> strides(std::next(strides_.begin()), strides_.end());
-      builder.beginlist();
+      if (include_beginendlist) {
+        builder.beginlist();
+      }
       for (int64_t i = 0;  i < length();  i++) {
         ssize_t byteoffset = byteoffset_ + strides_[0]*((ssize_t)i);
         NumpyArray numpy(Identities::none(),
@@ -4854,7 +4856,9 @@ namespace awkward {
                          ptr_lib_);
         numpy.tojson_boolean(builder, true);
       }
-      builder.endlist();
+      if (include_beginendlist) {
+        builder.endlist();
+      }
     }
   }
 
@@ -4882,7 +4886,9 @@ namespace awkward {
     else {
       const std::vector<ssize_t> shape(std::next(shape_.begin()), shape_.end());
       const std::vector<ssize_t> strides(std::next(strides_.begin()), strides_.end());
-      builder.beginlist();
+      if (include_beginendlist) {
+        builder.beginlist();
+      }
       for (int64_t i = 0;  i < length();  i++) {
         ssize_t byteoffset = byteoffset_ + strides_[0]*((ssize_t)i);
         NumpyArray numpy(Identities::none(),
@@ -4897,7 +4903,9 @@ namespace awkward {
                          ptr_lib_);
         numpy.tojson_integer<T>(builder, true);
       }
-      builder.endlist();
+      if (include_beginendlist) {
+        builder.endlist();
+      }
     }
   }
 
@@ -4925,7 +4933,9 @@ namespace awkward {
     else {
       const std::vector<ssize_t> shape(std::next(shape_.begin()), shape_.end());
       const std::vector<ssize_t> strides(std::next(strides_.begin()), strides_.end());
-      builder.beginlist();
+      if (include_beginendlist) {
+        builder.beginlist();
+      }
       for (int64_t i = 0;  i < length();  i++) {
         ssize_t byteoffset = byteoffset_ + strides_[0]*((ssize_t)i);
         NumpyArray numpy(Identities::none(),
@@ -4940,7 +4950,9 @@ namespace awkward {
                          ptr_lib_);
         numpy.tojson_real<T>(builder, true);
       }
-      builder.endlist();
+      if (include_beginendlist) {
+        builder.endlist();
+      }
     }
   }
 
@@ -4968,7 +4980,9 @@ namespace awkward {
     else {
       const std::vector<ssize_t> shape(std::next(shape_.begin()), shape_.end());
       const std::vector<ssize_t> strides(std::next(strides_.begin()), strides_.end());
-      builder.beginlist();
+      if (include_beginendlist) {
+        builder.beginlist();
+      }
       for (int64_t i = 0;  i < length();  i++) {
         ssize_t byteoffset = byteoffset_ + strides_[0]*((ssize_t)i);
         NumpyArray numpy(Identities::none(),
@@ -4983,7 +4997,9 @@ namespace awkward {
                          ptr_lib_);
         numpy.tojson_complex<T>(builder, true);
       }
-      builder.endlist();
+      if (include_beginendlist) {
+        builder.endlist();
+      }
     }
   }
 
@@ -5001,7 +5017,9 @@ namespace awkward {
     else {
       const std::vector<ssize_t> shape(std::next(shape_.begin()), shape_.end());
       const std::vector<ssize_t> strides(std::next(strides_.begin()), strides_.end());
-      builder.beginlist();
+      if (include_beginendlist) {
+        builder.beginlist();
+      }
       for (int64_t i = 0;  i < length();  i++) {
         ssize_t byteoffset = byteoffset_ + strides_[0]*((ssize_t)i);
         NumpyArray numpy(Identities::none(),
@@ -5016,7 +5034,9 @@ namespace awkward {
                          ptr_lib_);
         numpy.tojson_string(builder, true);
       }
-      builder.endlist();
+      if (include_beginendlist) {
+        builder.endlist();
+      }
     }
   }
 
